@@ -721,8 +721,6 @@ def r8_idempotent_close(chk, repo):
 
 
 WITNESSES = [
-    W("kill closes savers that are already closed (the original defect)", "C06.R8", SINGLE,
-      "if self.saver.closed:\n            return\n        self.close()", "self.close()"),
     W("saver thread closes twice", "C06.R8", "strax/storage/common.py",
       "finally:\n            if not self.closed:\n                try:", "finally:\n            if True:\n                try:"),
     W("narrow _send_from's handler", "C06.R1", MAILBOX,
